@@ -24,24 +24,24 @@ namespace DaeVerif.C19
 
 def findRec (n : Name) : List Rec → Option Rec
   | [] => none
-  | r :: rs => if r.name = n then some r else findRec n rs
+  | r :: rs => if nameEq r.name n then some r else findRec n rs
 
 def findLeaf (p : Name) : List Leaf → Option Leaf
   | [] => none
-  | l :: ls => if l.path = p then some l else findLeaf p ls
+  | l :: ls => if nameEq l.path p then some l else findLeaf p ls
 
 def lookupConst (n : Name) : List (Name × Int) → Option Int
   | [] => none
-  | (k, v) :: rest => if k = n then some v else lookupConst n rest
+  | (k, v) :: rest => if nameEq k n then some v else lookupConst n rest
 
 def findMap (n : Name) : List CMap → Option CMap
   | [] => none
-  | m :: ms => if m.name = n then some m else findMap n ms
+  | m :: ms => if nameEq m.name n then some m else findMap n ms
 
 /-- Go memory layouts for one GOARCH (`"packed"` = encoding/binary layout). -/
 def goRecsFor (arch : Name) : List Rec :=
-  if arch = n!"packed" then Gen.goPacked
-  else match Gen.goLayouts.find? (fun c => c.1.contains arch) with
+  if nameEq arch n!"packed" then Gen.goPacked
+  else match Gen.goLayouts.find? (fun c => nameMem arch c.1) with
     | some c => c.2
     | none => []
 
@@ -62,6 +62,19 @@ def Leaf.bytes (l : Leaf) : Nat := l.esize * l.count
 
 /-- byte `b` (offset in the record) lies inside leaf `l`. -/
 def Leaf.covers (l : Leaf) (b : Nat) : Bool := l.off ≤ b && b < l.off + l.bytes
+
+/-- the furthest end among the leaves of `ls` that contain byte `pos` (`pos` itself if none does) -/
+def coverUpTo (ls : List Leaf) (pos : Nat) : Nat :=
+  ls.foldl (fun acc l => if l.covers pos && acc < l.off + l.bytes then l.off + l.bytes else acc) pos
+
+/-- every byte of `[pos, stop)` lies inside some leaf of `ls` (walks leaf by leaf; `fuel` bounds the
+number of steps, `ls.length + 1` always suffices) -/
+def coveredRange (ls : List Leaf) : (fuel pos stop : Nat) → Bool
+  | 0, pos, stop => stop ≤ pos
+  | fuel + 1, pos, stop =>
+    if stop ≤ pos then true
+    else if coverUpTo ls pos ≤ pos then false
+    else coveredRange ls fuel (coverUpTo ls pos) stop
 
 /-- One hand-written correspondence between a C record and a Go struct type. -/
 structure Pairing where
@@ -100,21 +113,19 @@ def pairProblems (cs gs : List Rec) (p : Pairing) : List String :=
         | none, _ => [s!"Go field {nameStr p.go}.{nameStr gp} not found"]
         | _, none => [s!"C member {nameStr p.c}.{nameStr cp} not found"])
     ++ g.leaves.flatMap (fun gl =>
-        if gl.blank || p.fields.any (fun f => f.1 == gl.path) then [] else [s!"Go field {nameStr p.go}.{nameStr gl.path} has no C counterpart"])
+        if gl.blank || p.fields.any (fun f => nameEq f.1 gl.path) then [] else [s!"Go field {nameStr p.go}.{nameStr gl.path} has no C counterpart"])
     ++ c.leaves.flatMap (fun cl =>
-        if p.fields.any (fun f => f.2 == cl.path) then []
-        else if p.cAlt.contains cl.path then
-          let pairedC := c.leaves.filter (fun x => p.fields.any (fun f => f.2 == x.path))
-          let blanks := g.leaves.filter (·.blank)
-          if (List.range cl.bytes).all (fun i =>
-              pairedC.any (·.covers (cl.off + i)) || blanks.any (·.covers (cl.off + i))) then []
+        if p.fields.any (fun f => nameEq f.2 cl.path) then []
+        else if nameMem cl.path p.cAlt then
+          let cover := c.leaves.filter (fun x => p.fields.any (fun f => nameEq f.2 x.path)) ++ g.leaves.filter (·.blank)
+          if coveredRange cover (cover.length + 1) cl.off (cl.off + cl.bytes) then []
           else [s!"C member {nameStr p.c}.{nameStr cl.path} (alternate view/padding) is not covered by mirrored fields"]
         else [s!"C member {nameStr p.c}.{nameStr cl.path} has no Go counterpart"])
 
 /-- The layout agreement predicate for one pairing under given C and Go tables:
 sizes equal; every paired field agrees in offset/width/count/class and is not blank; every
 non-blank Go leaf is paired; every C leaf is paired or is a declared alternate view/padding whose
-bytes are all covered by paired leaves or Go blanks. -/
+bytes are all covered by paired C leaves or blank Go leaves. -/
 def pairOk (cs gs : List Rec) (p : Pairing) : Bool :=
   match findRec p.c cs, findRec p.go gs with
   | some c, some g =>
@@ -123,19 +134,19 @@ def pairOk (cs gs : List Rec) (p : Pairing) : Bool :=
         match findLeaf f.1 g.leaves, findLeaf f.2 c.leaves with
         | some gl, some cl => !gl.blank && leafAgree gl cl
         | _, _ => false)
-    && g.leaves.all (fun gl => gl.blank || p.fields.any (fun f => f.1 == gl.path))
+    && g.leaves.all (fun gl => gl.blank || p.fields.any (fun f => nameEq f.1 gl.path))
     && c.leaves.all (fun cl =>
-        p.fields.any (fun f => f.2 == cl.path)
-        || (p.cAlt.contains cl.path
-            && (List.range cl.bytes).all (fun i =>
-                (c.leaves.filter (fun x => p.fields.any (fun f => f.2 == x.path))).any (·.covers (cl.off + i))
-                || (g.leaves.filter (·.blank)).any (·.covers (cl.off + i)))))
+        p.fields.any (fun f => nameEq f.2 cl.path)
+        || (nameMem cl.path p.cAlt
+            && coveredRange
+                (c.leaves.filter (fun x => p.fields.any (fun f => nameEq f.2 x.path)) ++ g.leaves.filter (·.blank))
+                (c.leaves.length + g.leaves.length + 1) cl.off (cl.off + cl.bytes)))
   | _, _ => false
 
 /-! ## 2. The pairing (hand-written) -/
 
 def ip6Alt (pfx : Name) : List Name :=
-  [pfx ++ n!".u6_addr16", pfx ++ n!".u6_addr32", pfx ++ n!".u6_addr64"]
+  [nameCat pfx n!".u6_addr16", nameCat pfx n!".u6_addr32", nameCat pfx n!".u6_addr64"]
 
 def routingResultFields : List (Name × Name) :=
   [(n!"Mark", n!"mark"), (n!"Must", n!"must"), (n!"Mac", n!"mac"), (n!"Outbound", n!"outbound"),
@@ -162,7 +173,7 @@ def pairing : List Pairing := [
   { c := n!"routing_result", go := n!"real.bpfRoutingResult", wire := false, real := true,
     fields := routingResultFields, cAlt := [] },
   { c := n!"routing_handoff_entry", go := n!"stub.bpfRoutingHandoffEntry", wire := false,
-    fields := (n!"LastSeenNs", n!"last_seen_ns") :: routingResultFields.map (fun f => (n!"Result." ++ f.1, n!"result." ++ f.2)),
+    fields := (n!"LastSeenNs", n!"last_seen_ns") :: routingResultFields.map (fun f => (nameCat n!"Result." f.1, nameCat n!"result." f.2)),
     cAlt := [] },
   { c := n!"dae_param", go := n!"stub.bpfDaeParam", wire := true,
     fields := [(n!"TproxyPort", n!"tproxy_port"), (n!"ControlPlanePid", n!"control_plane_pid"),
@@ -235,12 +246,12 @@ def layoutObligations : List (Pairing × Name) :=
 writes: per-CPU scratch space of the kernel program. -/
 def handleOnlyMaps : List Name := [n!"pkt_scratch_map"]
 
-def isPairedC (n : Name) : Bool := pairing.any (fun p => p.c == n)
+def isPairedC (n : Name) : Bool := pairing.any (fun p => nameEq p.c n)
 
 /-- A shared map's record key/value types are mirrored, and the Go-declared handle exists in C. -/
 def mapOk (m : CMap) : Bool :=
-  !Gen.goMapTags.contains m.name || handleOnlyMaps.contains m.name ||
-    ((m.keyRec == [] || isPairedC m.keyRec) && (m.valRec == [] || isPairedC m.valRec))
+  !nameMem m.name Gen.goMapTags || nameMem m.name handleOnlyMaps ||
+    ((nameEq m.keyRec n!"" || isPairedC m.keyRec) && (nameEq m.valRec n!"" || isPairedC m.valRec))
 
 /-- Key/value widths the control plane uses for maps with scalar (or non-struct) keys/values:
 (map, key bytes, value bytes; 0 = not used / not applicable). Hand-written from the Go call sites
@@ -263,6 +274,14 @@ def scalarIOOk (x : Name × Nat × Nat) : Bool :=
   | some m => (x.2.1 == 0 || m.keySize == x.2.1) && (x.2.2 == 0 || m.valSize == x.2.2)
   | none => false
 
+/-- one regenerated call site `<map>.Update/Lookup/Delete(key, value)`: when the static type of the
+key (argument 0) / value (argument 1) is plain data, its size is the C map's key / value size. -/
+def mapCallOk (c : Name × Name × Nat × Nat × String × String) : Bool :=
+  match findMap c.1 Gen.cMaps with
+  | some m =>
+    c.2.2.2.1 == 0 || (if c.2.2.1 == 0 then m.keySize == c.2.2.2.1 else m.valSize == c.2.2.2.1)
+  | none => false
+
 /-! ### Constants -/
 
 /-- Model of `cmd/generators/gen_ebpf_sync`: the (name, value) pairs it writes into
@@ -279,30 +298,30 @@ deriving Repr, DecidableEq
 def lowerByte (b : Nat) : Nat := if 65 ≤ b ∧ b ≤ 90 then b + 32 else b
 def upperByte (b : Nat) : Nat := if 97 ≤ b ∧ b ≤ 122 then b - 32 else b
 
-/-- split a name on `_` (95), dropping empty parts -/
-def splitUnderscore : Name → Name → List Name
-  | [], cur => if cur = [] then [] else [cur.reverse]
+/-- split a byte string on `_` (95), dropping empty parts -/
+def splitUnderscore : List Nat → List Nat → List (List Nat)
+  | [], cur => if cur.isEmpty then [] else [cur.reverse]
   | b :: bs, cur =>
-    if b = 95 then (if cur = [] then splitUnderscore bs [] else cur.reverse :: splitUnderscore bs [])
+    if b = 95 then (if cur.isEmpty then splitUnderscore bs [] else cur.reverse :: splitUnderscore bs [])
     else splitUnderscore bs (b :: cur)
 
-def upperFirst : Name → Name
+def upperFirst : List Nat → List Nat
   | [] => []
   | c :: cs => upperByte c :: cs
 
 /-- `toCamel(strings.ToLower(name))`: split on `_`, drop empty parts, capitalise each (ASCII). -/
 def toCamelLower (s : Name) : Name :=
-  ((splitUnderscore (s.map lowerByte) []).map upperFirst).flatten
+  nameOfBytes ((splitUnderscore ((nameBytes s).map lowerByte) []).map upperFirst).flatten
 
 def goOutboundName (c : Name) : Name :=
-  if c = n!"DIRECT" then n!"OutboundDirect"
-  else if c = n!"BLOCK" then n!"OutboundBlock"
-  else if c = n!"MUST_RULES" then n!"OutboundMustRules"
-  else if c = n!"CONTROL_PLANE_ROUTING" then n!"OutboundControlPlaneRouting"
-  else if c = n!"LOGICAL_OR" then n!"OutboundLogicalOr"
-  else if c = n!"LOGICAL_AND" then n!"OutboundLogicalAnd"
-  else if c = n!"LOGICAL_MASK" then n!"OutboundLogicalMask"
-  else n!"Outbound" ++ toCamelLower c
+  if nameEq c n!"DIRECT" then n!"OutboundDirect"
+  else if nameEq c n!"BLOCK" then n!"OutboundBlock"
+  else if nameEq c n!"MUST_RULES" then n!"OutboundMustRules"
+  else if nameEq c n!"CONTROL_PLANE_ROUTING" then n!"OutboundControlPlaneRouting"
+  else if nameEq c n!"LOGICAL_OR" then n!"OutboundLogicalOr"
+  else if nameEq c n!"LOGICAL_AND" then n!"OutboundLogicalAnd"
+  else if nameEq c n!"LOGICAL_MASK" then n!"OutboundLogicalMask"
+  else nameCat n!"Outbound" (toCamelLower c)
 
 /-- enumerate from `i` (the Go side uses `iota`, the C side prints the loop index). -/
 def enumFrom (i : Nat) : List Name → List (Name × Nat)
@@ -310,29 +329,29 @@ def enumFrom (i : Nat) : List Name → List (Name × Nat)
   | x :: xs => (x, i) :: enumFrom (i + 1) xs
 
 def genGo (s : Spec) : GenOut :=
-  { matchTypes := (enumFrom 0 s.matchTypes).map (fun x => (n!"MatchType_" ++ x.1, x.2)),
+  { matchTypes := (enumFrom 0 s.matchTypes).map (fun x => (nameCat n!"MatchType_" x.1, x.2)),
     outbound := s.outbound.map (fun x => (goOutboundName x.1, x.2)),
-    l4 := s.l4.map (fun x => (n!"L4ProtoType_" ++ x.1, x.2)),
-    ip := s.ip.map (fun x => (n!"IpVersion_" ++ x.1, x.2)) }
+    l4 := s.l4.map (fun x => (nameCat n!"L4ProtoType_" x.1, x.2)),
+    ip := s.ip.map (fun x => (nameCat n!"IpVersion_" x.1, x.2)) }
 
 def genC (s : Spec) : GenOut :=
-  { matchTypes := (enumFrom 0 s.matchTypes).map (fun x => (n!"MatchType_" ++ x.1, x.2)),
-    outbound := s.outbound.map (fun x => (n!"OUTBOUND_" ++ x.1, x.2)),
-    l4 := s.l4.map (fun x => (n!"L4ProtoType_" ++ x.1, x.2)),
-    ip := s.ip.map (fun x => (n!"IpVersionType_" ++ x.1, x.2)) }
+  { matchTypes := (enumFrom 0 s.matchTypes).map (fun x => (nameCat n!"MatchType_" x.1, x.2)),
+    outbound := s.outbound.map (fun x => (nameCat n!"OUTBOUND_" x.1, x.2)),
+    l4 := s.l4.map (fun x => (nameCat n!"L4ProtoType_" x.1, x.2)),
+    ip := s.ip.map (fun x => (nameCat n!"IpVersionType_" x.1, x.2)) }
 
 def GenOut.all (g : GenOut) : List (Name × Nat) := g.matchTypes ++ g.outbound ++ g.l4 ++ g.ip
 
 /-- the generated Go file as checked in carries exactly the generator's values -/
 def goFileMatchesSpec : Bool :=
-  (genGo Gen.specData).all.all (fun x => lookupConst (n!"consts." ++ x.1) Gen.goConsts == some (x.2 : Int))
+  (genGo Gen.specData).all.all (fun x => lookupConst (nameCat n!"consts." x.1) Gen.goConsts == some (x.2 : Int))
 
 def cFileMatchesSpec : Bool :=
   (genC Gen.specData).all.all (fun x => lookupConst x.1 Gen.cConsts == some (x.2 : Int))
 
 /-- pairs (Go constant, C constant) that the generator emits for the current spec -/
 def specConstPairs : List (Name × Name) :=
-  ((genGo Gen.specData).all.zip (genC Gen.specData).all).map (fun x => (n!"consts." ++ x.1.1, x.2.1))
+  ((genGo Gen.specData).all.zip (genC Gen.specData).all).map (fun x => (nameCat n!"consts." x.1.1, x.2.1))
 
 /-- hand-written pairs of constants that denote the same quantity -/
 def fixedConstPairs : List (Name × Name) := [
@@ -571,11 +590,16 @@ regenerated table). -/
 def cListenKey (l4proto : Nat) (ethIsV6 : Bool) : Nat :=
   if l4proto = 6 then (if ethIsV6 then cConstNat n!"two_key" else cConstNat n!"zero_key") else cConstNat n!"one_key"
 
-/-- which key the control plane stores each listener under (`control_plane.go`, `ListenSocketMap.Update`) -/
+def lookupName (n : Name) : List (Name × Name) → Name
+  | [] => n!""
+  | (k, v) :: rest => if nameEq k n then v else lookupName n rest
+
+/-- which key the control plane stores each listener under: the constant named in the regenerated
+call site `ListenSocketMap.Update(consts.K, uint64(<file>.Fd()), …)` of that listener's file. -/
 def goListenKey : Listener → Nat
-  | .tcp4 => goConstNat n!"consts.ZeroKey"
-  | .tcp6 => goConstNat n!"consts.TwoKey"
-  | .udp => goConstNat n!"consts.OneKey"
+  | .tcp4 => goConstNat (lookupName n!"tcp4File" Gen.goListenUse)
+  | .tcp6 => goConstNat (lookupName n!"tcp6File" Gen.goListenUse)
+  | .udp => goConstNat (lookupName n!"udpFile" Gen.goListenUse)
 
 def listenerOfPacket (l4proto : Nat) (ethIsV6 : Bool) : Listener :=
   if l4proto = 6 then (if ethIsV6 then .tcp6 else .tcp4) else .udp
